@@ -109,6 +109,76 @@ func (h *sdHook) OnConnectAuthenticate(cl *mqtt.Client, pk packets.Packet) bool 
 	return true
 }
 
+// sdAllow admits every connection (sd.race).
+type sdAllow struct{ mqtt.HookBase }
+
+func (h *sdAllow) ID() string                                                 { return "sd-allow" }
+func (h *sdAllow) Provides(b byte) bool                                       { return b == mqtt.OnConnectAuthenticate }
+func (h *sdAllow) OnConnectAuthenticate(*mqtt.Client, packets.Packet) bool { return true }
+
+// sdRaceOnce: one established client, one accepted connection whose goroutine is spawned (the listener's
+// end test has passed) and Server.Close are let go together. Nothing is parked: the window of F36c is
+// inside sync.WaitGroup (between the Done that releases Wait and Wait waking up), where no yield point
+// can be placed. Returns the panic Server.Close raised, if any.
+func sdRaceOnce(it int) (panicked string) {
+	st := &sdState{conns: map[int]*sdConn{}, byID: map[string]*sdConn{}}
+	s := mqtt.New(&mqtt.Options{Logger: slog.New(slog.NewTextHandler(io.Discard, nil))})
+	_ = s.AddHook(new(sdAllow), nil)
+	l := &sdListener{id: "l0", st: st}
+	_ = s.AddListener(l)
+	st.ls = []*sdListener{l}
+	_ = s.Serve()
+	if !waitUntil(func() bool { return l.establish.Load() != nil }) {
+		return ""
+	}
+	establish := l.establish.Load().(listeners.EstablishFn)
+	a1, a2 := net.Pipe()
+	b1, b2 := net.Pipe()
+	go io.Copy(io.Discard, a1)
+	go io.Copy(io.Discard, b1)
+	var wg sync.WaitGroup
+	wg.Add(1)
+	go func() { defer wg.Done(); _ = establish("l0", a2) }()
+	_, _ = a1.Write(sdConnectPacket(4, "a"))
+	waitUntil(func() bool { return s.Clients.Len() > 0 })
+	start := make(chan struct{})
+	var mu sync.Mutex
+	wg.Add(2)
+	go func() {
+		defer wg.Done()
+		defer func() {
+			if r := recover(); r != nil {
+				mu.Lock()
+				panicked = fmt.Sprint(r)
+				mu.Unlock()
+			}
+		}()
+		<-start
+		_ = s.Close()
+	}()
+	go func() { // the goroutine TCP.Serve spawned: its first statement of interest is ClientsWg.Add(1)
+		defer wg.Done()
+		<-start
+		for i := 0; i < (it%64)*8; i++ {
+			_ = i
+		}
+		_ = establish("l0", b2)
+	}()
+	close(start)
+	time.Sleep(150 * time.Microsecond)
+	b1.Close()
+	a1.Close()
+	done := make(chan struct{})
+	go func() { wg.Wait(); close(done) }()
+	select {
+	case <-done:
+	case <-time.After(sdWait):
+	}
+	mu.Lock()
+	defer mu.Unlock()
+	return panicked
+}
+
 type sdState struct {
 	s               *mqtt.Server
 	ls              []*sdListener
@@ -488,7 +558,10 @@ func init() {
 		st.m["sd"] = s
 		return s.status()
 	}
-	runners["sd.accept"] = func(st *state, a []string) string { // sd.accept <n> <ver> <listener>
+	runners["sd.accept"] = func(st *state, a []string) string {
+		if sdOf(st) == nil {
+			return "no-server"
+		} // sd.accept <n> <ver> <listener>
 		s := sdOf(st)
 		n, ver, li := atoi(a[0]), atoi(a[1]), atoi(a[2])
 		if _, ok := s.conns[n]; ok {
@@ -512,7 +585,10 @@ func init() {
 		}
 		return s.status()
 	}
-	runners["sd.start"] = func(st *state, a []string) string { // sd.start <n> [auth|added]: the spawned goroutine runs
+	runners["sd.start"] = func(st *state, a []string) string {
+		if sdOf(st) == nil {
+			return "no-server"
+		} // sd.start <n> [auth|added]: the spawned goroutine runs
 		s := sdOf(st)
 		c := s.conns[atoi(a[0])]
 		if c == nil || c.dropped || c.started {
@@ -541,7 +617,10 @@ func init() {
 		s.cancelWant(c)
 		return s.status()
 	}
-	runners["sd.release"] = func(st *state, a []string) string { // sd.release <n> [added]
+	runners["sd.release"] = func(st *state, a []string) string {
+		if sdOf(st) == nil {
+			return "no-server"
+		} // sd.release <n> [added]
 		s := sdOf(st)
 		c := s.conns[atoi(a[0])]
 		if c == nil || c.held == "" {
@@ -561,7 +640,10 @@ func init() {
 		s.cancelWant(c)
 		return s.status()
 	}
-	runners["sd.peerclose"] = func(st *state, a []string) string { // the client closes its end
+	runners["sd.peerclose"] = func(st *state, a []string) string {
+		if sdOf(st) == nil {
+			return "no-server"
+		} // the client closes its end
 		s := sdOf(st)
 		c := s.conns[atoi(a[0])]
 		if c == nil {
@@ -573,7 +655,10 @@ func init() {
 		}
 		return s.status()
 	}
-	runners["sd.close"] = func(st *state, a []string) string { // sd.close [hold]: Server.Close in its own goroutine
+	runners["sd.close"] = func(st *state, a []string) string {
+		if sdOf(st) == nil {
+			return "no-server"
+		} // sd.close [hold]: Server.Close in its own goroutine
 		s := sdOf(st)
 		if s.closeStarted {
 			return "dup"
@@ -590,7 +675,10 @@ func init() {
 		atomic.CompareAndSwapInt32(&s.closerHold, 1, 0) // nothing to disconnect: the hold was not taken
 		return r
 	}
-	runners["sd.closego"] = func(st *state, a []string) string { // release the parked Close
+	runners["sd.closego"] = func(st *state, a []string) string {
+		if sdOf(st) == nil {
+			return "no-server"
+		} // release the parked Close
 		s := sdOf(st)
 		if !atomic.CompareAndSwapInt32(&s.closerHold, 2, 0) {
 			return "not-held"
@@ -598,7 +686,26 @@ func init() {
 		close(s.closerCh)
 		return s.status()
 	}
-	runners["sd.status"] = func(st *state, a []string) string { return sdOf(st).status() }
+	// sd.race <iterations> [seconds]: the race of F36c, repeated until Server.Close panics
+	runners["sd.race"] = func(st *state, a []string) string {
+		n, limit := atoi(a[0]), 6.0
+		if len(a) > 1 {
+			limit = float64(atoi(a[1]))
+		}
+		t0 := time.Now()
+		for i := 0; i < n && time.Since(t0).Seconds() < limit; i++ {
+			if p := sdRaceOnce(i); p != "" {
+				return "panic=1 in=Server.Close msg=" + strings.ReplaceAll(p, " ", "_")
+			}
+		}
+		return "panic=0"
+	}
+	runners["sd.status"] = func(st *state, a []string) string {
+		if sdOf(st) == nil {
+			return "no-server"
+		}
+		return sdOf(st).status()
+	}
 
 	suites["shutdown"] = suite{gen: func(r *rand.Rand, n int, emit func(string)) {
 		// the two witness schedules first (F36a: late registration; F36b: uncounted handler)
